@@ -352,6 +352,48 @@ def run_case(case):
                     break
         except Exception as e:
             bad("reconfiguration-raises", "re-configuring a prepared InferenceSetup raised %r" % (e,))
+    # a refused re-configuration: the object is given a configuration that cannot be set up (two parameter conditions for one
+    # trajectory), the error is caught, the valid settings are put back, and the cost function that was installed before
+    # is evaluated again - still a function of theta alone
+    if good and case["N"] == 1 and not case["single_frame"]:
+        th = good[0]
+        M7 = make_model(case)
+        inf7, _ = make_setup(case, M7)
+        try:
+            v_before = float(inf7.cost_function(np.array(th)))
+            refused = False
+            try:
+                inf7.set_initial_conditions([{"A": 50.0, "B": 1.0, "C": 2.0}])
+                inf7.set_parameter_conditions([{"kp": 1.0}, {"kp": 2.0}])
+                inf7.prepare_inference()
+                inf7.setup_cost_function()
+            except Exception:
+                refused = True
+            # the same at the level of the inference interface: a likelihood for three trajectories with ONE shared initial
+            # condition but only two parameter conditions is refused while the valid likelihood stays installed
+            try:
+                LL3 = np.concatenate([np.array(inf7.LL_data)] * 3, axis=0)
+                tp3 = [np.array(case["grids"][0])] * 3
+                inf7.pid_interface.setup_likelihood_function(LL3, tp3, list(case["meas"]), {"A": 50.0, "B": 1.0, "C": 2.0},
+                                                             [{"kp": 1.0}, {"kp": 2.0}], norm_order=case["norm"])
+                C["invalid_reconfiguration_accepted"] += 1
+            except Exception:
+                C["refused_likelihood_constructions"] += 1
+                v_mid = float(inf7.cost_function(np.array(th)))
+                if not (v_mid == v_before or abs(v_mid - v_before) <= 1e-9 * (1 + abs(v_before))):
+                    bad("residue-of-refused-reconfiguration", "cost_function(%r) was %r, and is %r after a likelihood construction on the same interface was refused" % (th, v_before, v_mid))
+            if refused:
+                inf7.set_initial_conditions([dict(case["x0s"][0])])
+                if case["condkeys"]:
+                    inf7.set_parameter_conditions([dict(case["conds"][0])])
+                v_after = float(inf7.cost_function(np.array(th)))
+                C["evaluations_after_refused_reconfiguration"] += 1
+                if not (v_after == v_before or abs(v_after - v_before) <= 1e-9 * (1 + abs(v_before))):
+                    bad("residue-of-refused-reconfiguration", "cost_function(%r) was %r, and is %r after a re-configuration that was refused and undone" % (th, v_before, v_after))
+            else:
+                C["invalid_reconfiguration_accepted"] += 1
+        except Exception as e:
+            bad("reconfiguration-raises", "evaluating around a refused re-configuration raised %r" % (e,))
     # stochastic cost on a model whose stochastic simulation is deterministic (nothing can fire)
     if case["stochastic"]:
         import pandas as pd
